@@ -102,7 +102,7 @@ def run(ck):
             raw = sym("raw", ty="bytes")
             nr = len(it.raises); nf = len(env.facts)
             it.setattr(f, "value", as_bcat(raw), env, None, None)
-            simp = lambda t: D.simplify(D.simplify(t, env.facts), env.facts)
+            _sc = {}; simp = lambda t: D.simplify(D.simplify(t, env.facts, _sc), env.facts, _sc)
             ab = simp(read_path(it, env, f, "as_bytes"))
             R.check_slice_extent(ck, ab, "raw", Lin({}, 0), Lin({}, n), "UnsignedByteField.value setter", f"after field.value = octets: as_bytes == exactly the first {n} octets ({tag})", rule="P-MUST")
             val = simp(read_path(it, env, f, "value"))
@@ -135,7 +135,7 @@ def run(ck):
                 ck.verdict("W-UNPACK", how, f"width == len(raw) ({tag})", [] if ok else [show(bl)[:60]], show(bl)[:40])
                 continue
             fn = how
-            simp = lambda t: D.simplify(D.simplify(t, env.facts), env.facts)
+            _sc = {}; simp = lambda t: D.simplify(D.simplify(t, env.facts, _sc), env.facts, _sc)
             R.check_field_bits(ck, it, simp(read_path(it, env, f, "value")), data_bits_be("stream", 0, 8 * n), fn, f"value == big-endian first {n} octets ({tag})")
             bl = read_path(it, env, f, "byte_len")
             ck.verdict("W-UNPACK", fn, f"width == {n} ({tag})", [] if bl == C(n) else [show(bl)[:40]], "const", nontrivial=False)
